@@ -127,8 +127,10 @@ class C20(Oracle):
         # -- an indexed write (or an in-place sort) stores INTO the buffer: afterwards the object still
         #    shares it with every view that overlapped it before (asked of the real arrays here, but only
         #    for pairs the MODEL holds to be aliases)
-        if st.kind == 'indexed' and st.outcome == 'ok' and st.dest is not None and w.slots[st.dest].alive \
-                and not st.nested and not st.extra.get('selfwrites'):
+        if st.kind == 'indexed' and st.outcome in ('ok', 'rejected') and st.dest is not None and \
+                w.slots[st.dest].alive and not st.nested and not st.extra.get('selfwrites'):
+            # (also when the library rejected the store: whatever it did before it gave up, the views taken
+            #  earlier must go on writing through afterwards)
             pa = st.extra.get('pre_alias', {})
             if st.dest in pa:
                 tok, dpos = pa[st.dest]
